@@ -52,6 +52,8 @@ pub enum SectionKind {
     TwoNameBinary,
     /// `diff.submodule = log`: "Submodule path 123..456:" followed by commit summary lines
     SubmoduleLog,
+    /// `git diff --no-index one/x two/x` where only the mode differs: two-name diff line, old/new mode
+    TwoNameModeOnly,
     /// a modified file whose last line is a hunk header with nothing after it (truncated input,
     /// `git diff | head`): only the concatenation check uses it
     ModifiedEndsWithHunkHeader,
@@ -104,6 +106,7 @@ pub const ALL_SECTION_KINDS_C10: &[SectionKind] = &[
     SectionKind::SubmoduleLog,
     SectionKind::CombinedConflict,
     SectionKind::ModifiedEndsWithHunkHeader,
+    SectionKind::TwoNameModeOnly,
     // CombinedConflictOpen (a section that ends inside a conflict region) is not in the list: it is
     // not a complete file diff, and what delta should do with the lines it has buffered when the
     // next section begins is not something the property decides
@@ -485,6 +488,12 @@ impl<'a> Gen<'a> {
                 self.hunks(p, section, 2, None, ec);
                 return;
             }
+            TwoNameModeOnly => {
+                meta(self, format!("diff --git a/one/{} b/two/{}", a, a));
+                meta(self, "old mode 100644".into());
+                meta(self, "new mode 100755".into());
+                return;
+            }
             CombinedConflict | CombinedConflictOpen => {
                 meta(self, format!("diff --cc {}", a));
                 let h3 = self.hex(7);
@@ -635,7 +644,7 @@ impl<'a> Gen<'a> {
                 meta(self, "new file mode 100644".into());
                 meta(self, "index 0000000..e69de29".into());
             }
-            CombinedModified | CombinedBinary | RenamedBinary | TwoNameBinary | SubmoduleLog | CombinedConflict | CombinedConflictOpen => {}
+            CombinedModified | CombinedBinary | RenamedBinary | TwoNameBinary | SubmoduleLog | CombinedConflict | CombinedConflictOpen | TwoNameModeOnly => {}
         }
     }
 
